@@ -12,6 +12,7 @@ import (
 	"strconv"
 	"strings"
 	"sync"
+	"syscall"
 
 	"github.com/openGemini/openGemini/engine"
 	"github.com/openGemini/openGemini/lib/util/lifted/influx/influxql"
@@ -201,4 +202,63 @@ func ScratchDir(prefix string) string {
 	os.RemoveAll(d)
 	os.MkdirAll(d, 0o755)
 	return d
+}
+
+// FastScratchDir is ScratchDir on a memory file system when one is there (/dev/shm with at
+// least 4 GiB free): harnesses that copy and reopen thousands of small directory trees (crash
+// images) spend most of their time in fsync on a disk. $VERIF_SCRATCH_FAST overrides the place,
+// "off" disables it. The answers do not depend on where the scratch lives. Directories left
+// behind by harness processes that no longer exist are removed first.
+func FastScratchDir(prefix string) string {
+	root := os.Getenv("VERIF_SCRATCH_FAST")
+	if root == "off" {
+		return ScratchDir(prefix)
+	}
+	if root == "" {
+		root = "/dev/shm/verif-scratch"
+	}
+	scratchMu.Lock()
+	if !fastChecked {
+		fastChecked = true
+		if err := os.MkdirAll(root, 0o755); err == nil && freeBytes(root) > 4<<30 {
+			fastOK = true
+			if ents, e := os.ReadDir(root); e == nil {
+				for _, en := range ents {
+					// <prefix>-<pid>-<n>
+					f := strings.Split(en.Name(), "-")
+					if len(f) < 3 {
+						continue
+					}
+					pid, e := strconv.Atoi(f[len(f)-2])
+					if e != nil || pid == os.Getpid() {
+						continue
+					}
+					if _, e := os.Stat(fmt.Sprintf("/proc/%d", pid)); os.IsNotExist(e) {
+						os.RemoveAll(filepath.Join(root, en.Name()))
+					}
+				}
+			}
+		}
+	}
+	ok := fastOK
+	scratchN++
+	n := scratchN
+	scratchMu.Unlock()
+	if !ok {
+		return ScratchDir(prefix)
+	}
+	d := filepath.Join(root, fmt.Sprintf("%s-%d-%d", prefix, os.Getpid(), n))
+	os.RemoveAll(d)
+	os.MkdirAll(d, 0o755)
+	return d
+}
+
+var fastChecked, fastOK bool
+
+func freeBytes(dir string) uint64 {
+	var st syscall.Statfs_t
+	if err := syscall.Statfs(dir, &st); err != nil {
+		return 0
+	}
+	return st.Bavail * uint64(st.Bsize)
 }
